@@ -5,6 +5,8 @@ pub mod c12;
 pub mod c13;
 pub mod c14;
 pub mod c15;
+pub mod c19;
+pub mod c20;
 pub mod common;
 pub mod concprops;
 pub mod crashprops;
@@ -33,6 +35,8 @@ pub fn all() -> Vec<Box<dyn Prop>> {
         Box::new(concprops::C06),
         Box::new(concprops::C07),
         Box::new(faultprops::C17),
+        Box::new(c19::C19),
+        Box::new(c20::C20),
         Box::new(concprops::C18),
     ]
 }
